@@ -362,6 +362,7 @@ func (b *ReadOnly) AllKeysChan(ctx context.Context) (<-chan cid.Cid, error) {
 	verifhook.Gate(b, "AllKeysChan", "locked")
 
 	if b.closed {
+		verifhook.Gate(b, "AllKeysChan", "unlocking")
 		b.mu.RUnlock() // don't hold the mutex forever
 		return nil, errClosed
 	}
@@ -373,6 +374,7 @@ func (b *ReadOnly) AllKeysChan(ctx context.Context) (<-chan cid.Cid, error) {
 	}
 	_, headerSize, err := carv1.ReadHeaderAndSize(rdr, b.opts.MaxAllowedHeaderSize)
 	if err != nil {
+		verifhook.Gate(b, "AllKeysChan", "unlocking")
 		b.mu.RUnlock() // don't hold the mutex forever
 		return nil, fmt.Errorf("error reading car header: %w", err)
 	}
@@ -382,6 +384,7 @@ func (b *ReadOnly) AllKeysChan(ctx context.Context) (<-chan cid.Cid, error) {
 
 	// Seek to the end of header.
 	if _, err = rdr.Seek(int64(headerSize), io.SeekStart); err != nil {
+		verifhook.Gate(b, "AllKeysChan", "unlocking")
 		b.mu.RUnlock() // don't hold the mutex forever
 		return nil, err
 	}
